@@ -475,7 +475,7 @@ fn main() {
         }
     }
 
-    let n = check.tier.pick(2_000u32, 120_000);
+    let n = check.tier.pick(8_000u32, 120_000);
     pt::run(
         &check,
         "c02-A",
